@@ -23,6 +23,9 @@ enum Step {
     Burst { n: u8 },
     /// one line of 60 000 - 200 000 bytes (beyond any plausible internal chunk size)
     OfferBig { p: u8, n: u8 },
+    /// nothing happens for 550-800 ms (meant for a closed gate with producers blocked on a full
+    /// queue: a non-lossy writer has to keep them waiting, however long the writer stalls)
+    Stall { ms: u8 },
     CloseGate,
     OpenGate,
     /// wait until every outstanding offer returned and the worker went idle
@@ -41,6 +44,10 @@ struct Case {
     /// then needs a noticeable part of the guard's documented one-second patience to drain
     #[serde(default)]
     slow_write_ms: u8,
+    /// the underlying writer accepts at most this many bytes per write call (0 = everything);
+    /// the worker has to keep writing until the whole line is out
+    #[serde(default)]
+    short_cap: u8,
 }
 
 #[derive(Clone, Debug, PartialEq)]
@@ -57,6 +64,7 @@ struct Shared {
     flush_faults: HashSet<usize>,
     counters: Mutex<(usize, usize)>,
     slow_write_ms: u64,
+    short_cap: usize,
 }
 struct Scripted(Arc<Shared>);
 impl Write for Scripted {
@@ -76,9 +84,10 @@ impl Write for Scripted {
         if self.0.slow_write_ms > 0 {
             std::thread::sleep(Duration::from_millis(self.0.slow_write_ms));
         }
-        self.0.log.lock().unwrap().push(Call::Write { bytes: buf.to_vec(), ok });
+        let n = if self.0.short_cap > 0 { buf.len().min(self.0.short_cap) } else { buf.len() };
+        self.0.log.lock().unwrap().push(Call::Write { bytes: buf[..n].to_vec(), ok });
         if ok {
-            Ok(buf.len())
+            Ok(n)
         } else {
             Err(io::Error::new(io::ErrorKind::Other, "scripted write fault"))
         }
@@ -176,6 +185,7 @@ fn run_case(case: &Case) -> Outcome {
         counters: Mutex::new((0, 0)),
         // (at most 8 queued lines + 4 blocked producers: 12 x 45 ms stays well below the second)
         slow_write_ms: (case.slow_write_ms as u64).min(45),
+        short_cap: case.short_cap as usize,
     });
     let cap = (case.capacity as usize).clamp(1, 8);
     let (nb, guard) = NonBlockingBuilder::default().buffered_lines_limit(cap).lossy(case.lossy).finish(Scripted(sh.clone()));
@@ -233,6 +243,7 @@ fn run_case(case: &Case) -> Outcome {
     let mut backlog_at_drop = false;
     let mut gate = true;
     let mut bursts = 0usize;
+    let mut stalled_long = false;
     let mut released_at_return = true;
     let mut big = 0usize;
     let mut drop_took = Duration::ZERO;
@@ -294,6 +305,10 @@ fn run_case(case: &Case) -> Outcome {
                         return inconclusive("producer did not finish within 10 s");
                     }
                 }
+            }
+            Step::Stall { ms } => {
+                std::thread::sleep(Duration::from_millis(550 + (ms as u64 % 6) * 50));
+                stalled_long = true;
             }
             Step::Burst { n } => {
                 let n = 50 + (n as usize % 4) * 100;
@@ -379,7 +394,35 @@ fn run_case(case: &Case) -> Outcome {
             let _ = h.join();
         }
     }
-    let log = sh.log.lock().unwrap().clone();
+    let mut log = sh.log.lock().unwrap().clone();
+    if case.short_cap > 0 {
+        // a line arrives in pieces: consecutive write calls are put together up to the line end
+        let mut merged: Vec<Call> = vec![];
+        let mut acc: Option<(Vec<u8>, bool)> = None;
+        for c in log.drain(..) {
+            match c {
+                Call::Write { bytes, ok } => {
+                    let a = acc.get_or_insert((vec![], true));
+                    a.0.extend_from_slice(&bytes);
+                    a.1 &= ok;
+                    if a.0.ends_with(b"\n") {
+                        let (bytes, ok) = acc.take().unwrap();
+                        merged.push(Call::Write { bytes, ok });
+                    }
+                }
+                other => {
+                    if let Some((bytes, ok)) = acc.take() {
+                        merged.push(Call::Write { bytes, ok });
+                    }
+                    merged.push(other);
+                }
+            }
+        }
+        if let Some((bytes, ok)) = acc.take() {
+            merged.push(Call::Write { bytes, ok });
+        }
+        log = merged;
+    }
     let dropped = counter.dropped_lines();
     let results: Vec<Vec<(Vec<u8>, bool)>> = producers.iter().map(|p| p.results.lock().unwrap().clone()).collect();
     let fail = |sig: &str, d: String| Outcome::fail(sig, format!("{d}; case = {}; writer log = {:?}", serde_json::to_string(case).unwrap_or_default(), log.iter().map(|c| match c { Call::Write { bytes, ok } => format!("W({}{})", short(bytes), if *ok { "" } else { " FAILED" }), Call::Flush { ok } => format!("F{}", if *ok { "" } else { "!" }), Call::Drop => "DROP".into() }).collect::<Vec<_>>()));
@@ -474,6 +517,12 @@ fn run_case(case: &Case) -> Outcome {
     if case.slow_write_ms > 0 {
         classes.push("slow_writer_guard_dropped_over_backlog".into());
     }
+    if stalled_long {
+        classes.push("writer_stalled_longer_than_half_a_second".into());
+    }
+    if case.short_cap > 0 {
+        classes.push("underlying_writer_takes_few_bytes_per_call".into());
+    }
     if bursts > 0 && np > 1 {
         classes.push(if dropped > 0 { "simultaneous_burst_with_drops".into() } else { "simultaneous_burst".into() });
     }
@@ -511,7 +560,7 @@ impl Property for C15 {
         ];
         let max = tier.pick(12usize, 24usize);
         let general = (1u8..=8, any::<bool>(), 1u8..=4, proptest::collection::vec(step, 1..max), proptest::collection::vec(0u16..30, 0..4), proptest::collection::vec(0u16..12, 0..3))
-            .prop_map(|(capacity, lossy, producers, steps, write_faults, flush_faults)| Case { capacity, lossy, producers, steps, write_faults, flush_faults, slow_write_ms: 0 });
+            .prop_map(|(capacity, lossy, producers, steps, write_faults, flush_faults)| Case { capacity, lossy, producers, steps, write_faults, flush_faults, slow_write_ms: 0, short_cap: 0 });
         // template: a slow underlying writer (20-45 ms per write) and a guard dropped over a full
         // queue: draining takes a few hundred milliseconds, well inside the guard's documented
         // one-second patience, and the drop must not return before it is done
@@ -526,15 +575,43 @@ impl Property for C15 {
                 steps.push(Step::Offer { p, n });
             }
             steps.push(Step::DropGuard);
-            Case { capacity, lossy, producers, steps, write_faults: vec![], flush_faults: vec![], slow_write_ms }
+            Case { capacity, lossy, producers, steps, write_faults: vec![], flush_faults: vec![], slow_write_ms, short_cap: 0 }
         });
-        prop_oneof![32 => general, 1 => slow].boxed()
+        // template: a non-lossy writer whose underlying writer stalls for more than half a second
+        // while producers are blocked on the full queue
+        let stall = (1u8..=2, 1u8..=3, 0u8..6, proptest::collection::vec((0u8..4, 1u8..4), 2..4)).prop_map(|(capacity, producers, ms, offers)| {
+            let mut steps = vec![Step::CloseGate];
+            for (p, n) in offers {
+                steps.push(Step::Offer { p, n });
+            }
+            steps.push(Step::Stall { ms });
+            steps.push(Step::OpenGate);
+            steps.push(Step::Settle);
+            steps.push(Step::DropGuard);
+            Case { capacity, lossy: false, producers, steps, write_faults: vec![], flush_faults: vec![], slow_write_ms: 0, short_cap: 0 }
+        });
+        // template: an underlying writer that takes 3-9 bytes per call, with a backlog behind a
+        // closed gate (so that lines are also picked up by the worker's drain path)
+        let short = (2u8..=8, any::<bool>(), 1u8..=3, 3u8..=9, proptest::collection::vec((0u8..4, 0u8..6), 1..5), any::<bool>()).prop_map(|(capacity, lossy, producers, short_cap, offers, gate)| {
+            let mut steps = vec![];
+            if gate {
+                steps.push(Step::CloseGate);
+            }
+            for (p, n) in offers {
+                steps.push(Step::Offer { p, n });
+            }
+            steps.push(Step::OpenGate);
+            steps.push(Step::Settle);
+            steps.push(Step::DropGuard);
+            Case { capacity, lossy, producers, steps, write_faults: vec![], flush_faults: vec![], slow_write_ms: 0, short_cap }
+        });
+        prop_oneof![64 => general, 2 => slow, 1 => stall, 3 => short].boxed()
     }
     fn run(&self, case: &Case) -> Outcome {
         run_case(case)
     }
     fn rule(&self) -> String {
-        "case = capacity 1-8 x lossy|non-lossy x 1-4 producer threads x <=12 (thorough <=24) steps {Offer(p, 1-6 unique lines), OfferBig(p, one line of 60 000-200 000 bytes), Burst (every producer offers 50-350 lines in a tight loop, all released by a barrier), CloseGate (underlying write blocks), OpenGate, Settle, DropGuard (appended if absent; producers may offer afterwards)} x fault script (subset of the first 30 write attempts and the first 12 flushes fail); 3 % of the cases: a writer that takes 20-45 ms per write and a guard dropped over a full queue. non-trivial: a fault was injected, or the guard was dropped with a backlog, or lines were offered while the writer was stalled and (lines were dropped | mode is non-lossy); distinct by case".into()
+        "case = capacity 1-8 x lossy|non-lossy x 1-4 producer threads x <=12 (thorough <=24) steps {Offer(p, 1-6 unique lines), OfferBig(p, one line of 60 000-200 000 bytes), Burst (every producer offers 50-350 lines in a tight loop, all released by a barrier), CloseGate (underlying write blocks), OpenGate, Settle, DropGuard (appended if absent; producers may offer afterwards)} x fault script (subset of the first 30 write attempts and the first 12 flushes fail); 3 % of the cases: a writer that takes 20-45 ms per write and a guard dropped over a full queue; 1.5 %: a non-lossy writer whose underlying writer stalls for 550-800 ms with producers blocked; 4 %: an underlying writer that takes 3-9 bytes per call. non-trivial: a fault was injected, or the guard was dropped with a backlog, or lines were offered while the writer was stalled and (lines were dropped | mode is non-lossy); distinct by case".into()
     }
     fn assumptions(&self) -> Vec<String> {
         vec![
